@@ -16,9 +16,9 @@ for p in sorted(glob.glob('notes/*.known_findings*.json')) + ['corpus/C01/known_
     for f in fs:
         if f.get('status', 'open') != 'open': continue
         prop.setdefault(f['property'], {})[k(f)] = f
-        if k(f) not in have and not any(('key='+k(f)[1]) in x or k(f)[1] in x for x in kf['fixed'] if f['property'] in x):
+        if k(f) not in have and not any(('key='+k(f)[1]+' ') in x for x in kf['fixed'] if ('property='+f['property']+' ') in x):
             print('NEW  ', p, k(f)[1][:90])
-            if apply: kf['findings'].append(f); have.add(k(f))
+            if apply and (not prune or f['property'] in prune): kf['findings'].append(f); have.add(k(f))
 for f in list(kf['findings']):
     if f.get('status','open')=='open' and f['property'] in prop and k(f) not in prop[f['property']]:
         print('STALE', f['property'], k(f)[1][:90])
